@@ -171,9 +171,17 @@ func RunStress(childTest string, f []string) []string {
 // writers keeps the goroutines blocked in an exclusive Lock: together with
 // the scenario they name the deadlock.
 func writers(stuck string) string {
+	if strings.HasPrefix(stuck, "rlock:") {
+		return stuck
+	}
 	seen := map[string]bool{}
 	var ws []string
 	for _, k := range strings.Split(stuck, ";") {
+		if strings.HasSuffix(k, "@chansend") {
+			ws = append(ws, k)
+
+			continue
+		}
 		if !strings.HasSuffix(k, ").Lock") {
 			continue
 		}
@@ -199,12 +207,12 @@ func lastLines(s string, n int) string {
 	return strings.Join(ls, " | ")
 }
 
-var sanRE = regexp.MustCompile(`[^A-Za-z0-9_.*()/~:$;@+-]+`)
+var sanRE = regexp.MustCompile(`[^A-Za-z0-9_.*()/~:$;@+>-]+`)
 
 func Sanitize(s string) string {
 	s = sanRE.ReplaceAllString(s, "_")
-	if len(s) > 160 {
-		s = s[:160]
+	if len(s) > 400 {
+		s = s[:400]
 	}
 
 	return s
@@ -213,6 +221,9 @@ func Sanitize(s string) string {
 // StuckKey names where the goroutines of the server are blocked on a lock:
 // the AdGuard Home functions right above sync.(*RWMutex).RLock/Lock.
 func StuckKey(stacks string) string {
+	if rec := recursiveReaders(stacks); rec != "" {
+		return rec
+	}
 	seen := map[string]bool{}
 	for _, g := range strings.Split(stacks, "\n\n") {
 		if !strings.Contains(g, "sync.(*RWMutex)") && !strings.Contains(g, "sync.(*Mutex)") {
@@ -235,6 +246,24 @@ func StuckKey(stacks string) string {
 						break
 					}
 				}
+			}
+		}
+	}
+	// goroutines blocked in a channel send inside AdGuard Home code
+	for _, g := range strings.Split(stacks, "\n\n") {
+		lines := strings.Split(g, "\n")
+		if len(lines) == 0 || !strings.Contains(lines[0], "[chan send") {
+			continue
+		}
+		for j := 1; j < len(lines); j += 2 {
+			if strings.HasPrefix(lines[j], Internal) && !strings.Contains(lines[j], "c05") && !strings.Contains(lines[j], "C05") {
+				fn := strings.TrimPrefix(lines[j], Internal)
+				if k := strings.Index(fn, "(0x"); k >= 0 {
+					fn = fn[:k]
+				}
+				seen[strings.TrimSuffix(fn, "(...)")+"@chansend"] = true
+
+				break
 			}
 		}
 	}
@@ -272,4 +301,156 @@ func StuckKey(stacks string) string {
 	sort.Strings(ks)
 
 	return strings.Join(ks, ";")
+}
+
+// factsName converts a runtime function name (pkg.(*T).m.func1) to the
+// extractor's ((*pkg.T).m).
+func factsName(rt string) string {
+	rt = strings.TrimPrefix(rt, Internal)
+	for {
+		k := strings.LastIndex(rt, ".")
+		if k < 0 {
+			break
+		}
+		last := rt[k+1:]
+		if strings.HasPrefix(last, "func") || strings.HasPrefix(last, "gowrap") || (len(last) > 0 && last[0] >= '0' && last[0] <= '9') {
+			rt = rt[:k]
+
+			continue
+		}
+
+		break
+	}
+	if m := ptrMethRE.FindStringSubmatch(rt); m != nil {
+		return "(*" + m[1] + "." + m[2] + ")." + m[3]
+	}
+
+	return rt
+}
+
+var ptrMethRE = regexp.MustCompile(`^(.*?)\.\(\*(\w+)\)\.(\w+)$`)
+
+type edgeInst struct {
+	Holder   string `json:"holder"`
+	Acquirer string `json:"acquirer"`
+}
+
+// recursiveInstances loads, from the facts the extractor has just written for
+// the tree under test, the (holder, acquirer) pairs of the re-entrant
+// acquisitions of a lock class (edges from a class to itself).
+func recursiveInstances() (res []edgeInst) {
+	path := os.Getenv("C05_FACTS")
+	if path == "" {
+		if d := os.Getenv("VERIF_DATA"); d != "" {
+			path = filepath.Join(d, "..", "..", "build", "C05", "facts.json")
+		}
+	}
+	data, err := os.ReadFile(path)
+	if err != nil {
+		return nil
+	}
+	var facts struct {
+		Edges, Known []struct {
+			From      int        `json:"from"`
+			To        int        `json:"to"`
+			Instances []edgeInst `json:"instances"`
+		}
+	}
+	var raw struct {
+		Edges []struct {
+			From      int        `json:"from"`
+			To        int        `json:"to"`
+			Instances []edgeInst `json:"instances"`
+		} `json:"edges"`
+		Known []struct {
+			From      int        `json:"from"`
+			To        int        `json:"to"`
+			Instances []edgeInst `json:"instances"`
+		} `json:"known_edges"`
+	}
+	_ = facts
+	if json.Unmarshal(data, &raw) != nil {
+		return nil
+	}
+	for _, e := range raw.Edges {
+		if e.From == e.To {
+			res = append(res, e.Instances...)
+		}
+	}
+	for _, e := range raw.Known {
+		if e.From == e.To {
+			res = append(res, e.Instances...)
+		}
+	}
+
+	return res
+}
+
+// recursiveReaders finds, in a goroutine dump, the goroutines that wait in
+// RWMutex.RLock inside a function that the extracted facts know as the inner
+// acquirer of a re-entrant read lock, while a function known as the matching
+// outer holder is further up the same stack: the readers that hold the lock
+// they wait for.  The key names these chains ("rlock:holder>acquirer;…").
+func recursiveReaders(stacks string) string {
+	insts := recursiveInstances()
+	if len(insts) == 0 {
+		return ""
+	}
+	seen := map[string]bool{}
+	for _, g := range strings.Split(stacks, "\n\n") {
+		if !strings.Contains(g, "sync.(*RWMutex).RLock(") {
+			continue
+		}
+		var frames []string // innermost first, AdGuard Home functions only
+		for _, l := range strings.Split(g, "\n") {
+			if strings.HasPrefix(l, Internal) {
+				fn := l
+				if k := strings.LastIndex(fn, "("); k >= 0 {
+					fn = fn[:k]
+				}
+				frames = append(frames, strings.TrimPrefix(fn, Internal))
+			}
+		}
+		if len(frames) < 2 {
+			continue
+		}
+		inner := factsName(frames[0])
+		for _, in := range insts {
+			if in.Acquirer != inner || in.Holder == in.Acquirer {
+				continue
+			}
+			for _, f := range frames[1:] {
+				if factsName(f) == in.Holder {
+					seen[shortRT(f)+">"+shortRT(frames[0])] = true
+				}
+			}
+		}
+	}
+	if len(seen) == 0 {
+		return ""
+	}
+	var ks []string
+	for k := range seen {
+		ks = append(ks, k)
+	}
+	sort.Strings(ks)
+
+	return "rlock:" + strings.Join(ks, ";")
+}
+
+func shortRT(f string) string {
+	for {
+		k := strings.LastIndex(f, ".")
+		if k < 0 {
+			return f
+		}
+		last := f[k+1:]
+		if strings.HasPrefix(last, "func") || strings.HasPrefix(last, "gowrap") {
+			f = f[:k]
+
+			continue
+		}
+
+		return f
+	}
 }
